@@ -113,10 +113,31 @@ def one_graph(args):
             eff_edges.discard(ignored[:2])
             ents = [e for e in ents if not (e['path'] == ignored[2] + '/f' or e['path'].startswith(ignored[2] + '/'))]
             ents.append({'tag': 'IGNORE', 'path': ignored[2], 'size': 0, 'ck': {}})
+        # IGNORE on everything that lies BEYOND a link leading back to an ancestor (path(a)/link/<child>): the
+        # link itself is not under an IGNOREd path, so the loop has to be reported all the same - also
+        # when the ancestor is the top directory
+        beyond = None
+        if not ignored and rng.random() < 0.35:
+            def is_anc(b, a):
+                x = a
+                while x:
+                    if x == b:
+                        return True
+                    x = parent.get(x, 0)
+                return False
+            loops = [l for l in links if l[0] in ids and l[1] in ids and is_anc(l[1], l[0])] \
+                if len(links) == 1 else []
+            if loops:
+                a, b, lname = rng.choice(loops)
+                lpath = (path[a] + '/' if path[a] else '') + lname
+                for x in sorted(os.listdir(real[b])):
+                    if os.path.isdir(os.path.join(real[b], x)):
+                        ents.append({'tag': 'IGNORE', 'path': lpath + '/' + x, 'size': 0, 'ck': {}})
+                beyond = lpath
         with open(os.path.join(root, 'Manifest'), 'wb') as f:
             f.write(fm.manifest_bytes(ents))
         base = {'dirs': alld, 'edges': [list(e) for e in sorted(eff_edges)], 'start': 1, 'foreign': foreign,
-                'meta': {'seed': seed, 'idx': idx, 'links': links, 'ignored': ignored, 'paths': path}}
+                'meta': {'seed': seed, 'idx': idx, 'links': links, 'ignored': ignored, 'beyond': beyond, 'paths': path}}
         old = signal.signal(signal.SIGALRM, _alarm)
         try:
             for op in ('verify', 'update', 'scan'):
